@@ -464,7 +464,7 @@ class SymReal:
     def __round__(s, nd=None):
         from . import numfmt
 
-        if numfmt.active() and not _in_raise_or_warn():
+        if numfmt.numeric() and not _in_raise_or_warn():
             return numfmt.round_to(s, 0 if nd is None else nd)
         if in_message_context():
             return 1.0  # placeholder (log10 of it is finite)
